@@ -133,6 +133,8 @@ pub struct TxOut {
     pub new_packets: Vec<u64>,
     /// a dispatched message the simulator does not understand (machinery problem)
     pub unknown_msg: Option<String>,
+    /// errors of dispatched (sub-)messages, kept even when a reply turned them into another error
+    pub sub_errors: Vec<String>,
 }
 
 #[derive(Clone, Debug, Hash, PartialEq, Eq)]
@@ -368,7 +370,10 @@ impl World {
         let SubMsg { id, msg, reply_on, .. } = sm;
         match reply_on {
             ReplyOn::Never => {
-                self.dispatch_msg(msg, out)?;
+                if let Err(e) = self.dispatch_msg(msg, out) {
+                    out.sub_errors.push(e.clone());
+                    return Err(e);
+                }
                 Ok(())
             }
             _ => {
@@ -389,6 +394,7 @@ impl World {
                         }
                     }
                     Err(e) => {
+                        out.sub_errors.push(e.clone());
                         if matches!(reply_on, ReplyOn::Error | ReplyOn::Always) {
                             *self = snap;
                             out.events.truncate(ev_len);
